@@ -486,3 +486,40 @@ def run_stream(mode, args, timeout=900):
         return {"reqs": reqs, "impl": impl, "model": model, "meta": meta, "rc": rc, "err": err + merr, "rc_model": rc2}
     finally:
         rmtree(d)
+
+
+def group_oracle_c10(res, known):
+    """C10: within a group (base + permuted / flattened / split variants) the implementation must give
+    the same verdict and the same call list.  `known` collects KNOWN-FINDING messages (D12)."""
+    fails = []
+    groups = {}
+    for req, im, meta in zip(res["reqs"], res["impl"], res["meta"]):
+        ws = meta.split()
+        if len(ws) == 2:
+            groups.setdefault(ws[0], []).append((ws[1], req, im))
+    for g, members in groups.items():
+        base = [m for m in members if m[0] == "base"]
+        if not base:
+            continue
+        _, breq, bim = base[0]
+        try:
+            bcase = parse_request(breq)
+            chained = any(c.chained for c in closures(bcase))
+        except Exception:
+            chained = False
+        for kind, req, im in members:
+            if kind == "base" or im == bim:
+                continue
+            toks = im.split()
+            if kind == "flat" and toks[0] == "err" and all(t.startswith("unused") for t in toks[1:]):
+                continue          # flattening exposes unused members as direct items: outside the property's quantifier
+            try:
+                vchained = chained or any(c.chained for c in closures(parse_request(req)))
+            except Exception:
+                vchained = chained
+            if vchained and toks[0] == "err" and all(t.startswith(("bindmissing", "importfailed")) for t in toks[1:]):
+                known.add("D12")
+                continue
+            fails.append({"request": req, "impl": im, "base_request": breq,
+                          "why": ["%s variant of an accepted program gives a different result: %s (base: %s)" % (kind, im[:200], bim[:200])]})
+    return fails
